@@ -159,6 +159,10 @@ impl HttpClient {
         &self,
         uri: &uri::Https,
     ) -> Result<HttpResponse, reqwest::Error> {
+        #[cfg(routinator_verif)]
+        if let Some(response) = crate::verif::http(uri.as_str(), None, None) {
+            return response.error_for_status().map(HttpResponse::create)
+        }
         self._response(self.client().get(uri.as_str()))
     }
 
@@ -168,6 +172,13 @@ impl HttpClient {
         etag: Option<&Bytes>,
         last_modified: Option<DateTime<Utc>>,
     ) -> Result<HttpResponse, reqwest::Error> {
+        #[cfg(routinator_verif)]
+        if let Some(response) = crate::verif::http(
+            uri.as_str(), etag.map(|etag| etag.as_ref()),
+            last_modified.map(format_http_date),
+        ) {
+            return response.error_for_status().map(HttpResponse::create)
+        }
         let mut request = self.client().get(uri.as_str());
         if let Some(etag) = etag {
             request = request.header(
